@@ -521,29 +521,34 @@ def _one_dim(sh, case, obs):
             except Exception as e:
                 sh.violation(f"C19:box-rate:CFLevyModel:raises-{type(e).__name__}:{icls}", f"truncated _theta({a}): {type(e).__name__}: {e}", {"a": a})
                 continue
-            und = DefaultTime(default_level=a)
-            q_vec = create_q_vector(proc.model.levy_triplet.nu, grid)
-            closure = getattr(proc.sampling, "probability_to_jump_to_state", None)
-            lam = float(proc.intensity_of_jumps)
-            sums = {"mass": 0.0, "q-vector": 0.0}
-            if closure is not None:
-                sums["sampler"] = 0.0
-            n_default = 0
-            for k, x in enumerate(ax):
-                if k == o:
-                    continue
-                fires = float(und._value_log(np.array([0.0, 1.0]), None, np.array([0.0, x]))) == 1.0
-                if fires != (x < a):
-                    sh.violation("C19:default-time:DefaultTime:ne-first-jump-below-threshold:via=_value_log",
-                                 f"single jump {x} with threshold {a}: default fired = {fires}", {"a": a, "jump": x})
-                if not x < a:
-                    continue
-                n_default += 1
-                lo, hi = _cell(grid, Coordinates(k))
-                sums["mass"] += float(proc.model.mass(lo, hi))
-                sums["q-vector"] += float(q_vec[k])
+            try:
+                und = DefaultTime(default_level=a)
+                q_vec = create_q_vector(proc.model.levy_triplet.nu, grid)
+                closure = getattr(proc.sampling, "probability_to_jump_to_state", None)
+                lam = float(proc.intensity_of_jumps)
+                sums = {"mass": 0.0, "q-vector": 0.0}
                 if closure is not None:
-                    sums["sampler"] += float(closure(k - o)) * lam
+                    sums["sampler"] = 0.0
+                n_default = 0
+                for k, x in enumerate(ax):
+                    if k == o:
+                        continue
+                    fires = float(und._value_log(np.array([0.0, 1.0]), None, np.array([0.0, x]))) == 1.0
+                    if fires != (x < a):
+                        sh.violation("C19:default-time:DefaultTime:ne-first-jump-below-threshold:via=_value_log",
+                                     f"single jump {x} with threshold {a}: default fired = {fires}", {"a": a, "jump": x})
+                    if not x < a:
+                        continue
+                    n_default += 1
+                    lo, hi = _cell(grid, Coordinates(k))
+                    sums["mass"] += float(proc.model.mass(lo, hi))
+                    sums["q-vector"] += float(q_vec[k])
+                    if closure is not None:
+                        sums["sampler"] += float(closure(k - o)) * lam
+            except Exception as e:  # the library raising on a well-formed credit grid
+                sh.violation(f"C19:box-rate:MarkovChainProcess:raises-{type(e).__name__}:{icls}",
+                             f"rates of the states of the chain on CTMCCredit(h={h}, a={a}): {type(e).__name__}: {e}", {"a": a, "h": h, "axis": ax})
+                continue
             sh.count("default_states", n_default)
             sh.outcome(("box", float(sums["mass"]).hex()))
             for via, tot in sums.items():
@@ -821,27 +826,32 @@ def _chain_copula(sh, case, obs):
             sh.violation(f"C19:grid:CTMCCredit:threshold-not-on-cell-boundary:{icls}",
                          f"axis {k}: middle({axes[k][below]}, {axes[k][below + 1]}) = {mid!r}, threshold {a[k]!r}", {"a": a, "axis": axes[k]})
     # ------------------------------------------------------------------------ (i)
-    lam = float(proc.intensity_of_jumps)
-    samp = proc.sampling
-    closure = getattr(samp, "probability_to_jump_to_state", None)
-    bucket_p = getattr(samp, "_compute_probability", None)
-    lam_s = float(getattr(samp, "intensity_of_jumps", lam))
-    sums = {"mass": 0.0}
-    if closure is not None or bucket_p is not None:
-        sums["sampler"] = 0.0
-    n_default = 0
-    for idx in itertools.product(*[range(len(ax)) for ax in axes]):
-        if idx == o:
-            continue
-        if not any(axes[k][i] < a[k] for k, i in enumerate(idx)):
-            continue
-        n_default += 1
-        lo, hi = _cell(grid, Coordinates(idx))
-        sums["mass"] += float(proc.model.mass(lo, hi))
-        if closure is not None:
-            sums["sampler"] += float(closure(tuple(i - c for i, c in zip(idx, o)))) * lam
-        elif bucket_p is not None:
-            sums["sampler"] += float(bucket_p(tuple(lo), tuple(hi))) * lam_s
+    try:
+        lam = float(proc.intensity_of_jumps)
+        samp = proc.sampling
+        closure = getattr(samp, "probability_to_jump_to_state", None)
+        bucket_p = getattr(samp, "_compute_probability", None)
+        lam_s = float(getattr(samp, "intensity_of_jumps", lam))
+        sums = {"mass": 0.0}
+        if closure is not None or bucket_p is not None:
+            sums["sampler"] = 0.0
+        n_default = 0
+        for idx in itertools.product(*[range(len(ax)) for ax in axes]):
+            if idx == o:
+                continue
+            if not any(axes[k][i] < a[k] for k, i in enumerate(idx)):
+                continue
+            n_default += 1
+            lo, hi = _cell(grid, Coordinates(idx))
+            sums["mass"] += float(proc.model.mass(lo, hi))
+            if closure is not None:
+                sums["sampler"] += float(closure(tuple(i - c for i, c in zip(idx, o)))) * lam
+            elif bucket_p is not None:
+                sums["sampler"] += float(bucket_p(tuple(lo), tuple(hi))) * lam_s
+    except Exception as e:  # the library raising on a well-formed credit grid
+        sh.violation(f"C19:box-rate:{comp}:raises-{type(e).__name__}:{icls}",
+                     f"rates of the states of the chain on CTMCCredit(h={h}, a={a}, symmetric={sym}): {type(e).__name__}: {e}", {"a": a, "h": h})
+        return
     sh.count("default_states", n_default)
     ref, sabs = _box_intensity_ref(model.copula, nus, box, a)
     sh.nontriv()
